@@ -6,6 +6,11 @@ the mutant must fire there. The unmutated tree is analysed by the main run. The 
 different technique); whether the seeded variants pass the suite was established when they were collected (seeded/*/meta.json).
 
 A mutant whose anchor text no longer occurs in the current tree (because /repo was edited) is skipped and reported, not failed.
+
+Second half (the other direction): every behaviour-preserving refactoring kept in /verif/refactorings/<id>/patch.diff (written by
+independent agents, suite-neutral, see meta.json) is applied to a scratch copy as well; the property's rules must stay silent there -
+no violation and no "cannot classify". A refactoring listed in refactorings/EXPECTED_UNDECIDED.json for this property may end in
+"undecided" (exit 2 of a quick run), never in a violation.
 """
 
 from __future__ import annotations
@@ -101,6 +106,44 @@ def _run_one(args: tuple[str, dict, str]) -> dict:
         shutil.rmtree(tmp, ignore_errors=True)
 
 
+def _load_refactorings() -> list[dict]:
+    out = []
+    d = VERIF / "refactorings"
+    if d.is_dir():
+        for r in sorted(d.iterdir()):
+            if (r / "patch.diff").exists() and (r / "meta.json").exists():
+                out.append({"id": f"refac:{r.name}", "patch": str(r / "patch.diff")})
+    return out
+
+
+def _run_refac(args: tuple[str, dict, str]) -> dict:
+    pid, m, repo = args
+    import sys
+
+    sys.path.insert(0, str(HERE))
+    from core.loader import AnalysisError
+
+    import check
+
+    tmp = Path(tempfile.mkdtemp(prefix="pta-refac-"))
+    try:
+        shutil.copytree(Path(repo) / "src", tmp / "src")
+        if (Path(repo) / "docs").is_dir():
+            shutil.copytree(Path(repo) / "docs", tmp / "docs")
+        subprocess.run(["git", "init", "-q", "."], cwd=tmp, capture_output=True)
+        why = _apply(m, tmp)
+        if why is not None:
+            return {"id": m["id"], "status": "skipped", "why": why}
+        try:
+            res = check.analyse(pid, tmp)
+        except AnalysisError as e:
+            return {"id": m["id"], "status": "undecided", "why": str(e)[:300]}
+        bad = [f"{o.rule} {o.construct[-100:]}" for o in res.violations]
+        return {"id": m["id"], "status": "alarm" if bad else "silent", "fired": bad[:4]}
+    finally:
+        shutil.rmtree(tmp, ignore_errors=True)
+
+
 def run(pid: str, seed: int) -> dict:
     import sys
 
@@ -116,11 +159,28 @@ def run(pid: str, seed: int) -> dict:
     ctx = mp.get_context("fork")
     with ctx.Pool(workers) as pool:
         results = pool.map(_run_one, jobs)
+        refacs = _load_refactorings()
+        refac_results = pool.map(_run_refac, [(pid, m, repo) for m in refacs]) if refacs else []
+    expected_undecided: set[str] = set()
+    exp_file = VERIF / "refactorings" / "EXPECTED_UNDECIDED.json"
+    if exp_file.exists():
+        import json
+
+        expected_undecided = set(json.loads(exp_file.read_text()).get(pid, []))
     killed = [r for r in results if r["status"] == "killed"]
     skipped = [r for r in results if r["status"] == "skipped"]
     bad = [r for r in results if r["status"] in ("survived", "analysis-error")]
     failures = [f"mutant {r['id']} {r['status']}: expected {r.get('expect')}, fired {r.get('fired', r.get('why'))}" for r in bad]
+    for r in refac_results:
+        name = r["id"].split(":", 1)[1]
+        if r["status"] == "alarm" or (r["status"] == "undecided" and name not in expected_undecided):
+            failures.append(f"behaviour-preserving refactoring {name}: {r['status']} - {r.get('fired') or r.get('why')}")
     return {
+        "refactorings_total": len(refac_results),
+        "refactorings_silent": sum(1 for r in refac_results if r["status"] == "silent"),
+        "refactorings_undecided_expected": sorted(r["id"] for r in refac_results if r["status"] == "undecided" and r["id"].split(":", 1)[1] in expected_undecided),
+        "refactorings_skipped": sum(1 for r in refac_results if r["status"] == "skipped"),
+        "refactorings": refac_results,
         "mutants_total": len(results),
         "mutants_killed": len(killed),
         "mutants_skipped": len(skipped),
